@@ -413,7 +413,7 @@ def modified_in_place(fnode, name):
 
 
 CLAIM = {
-    "text": "Exhaustive provenance check over the finite configuration space: for each of the four (draw_iid_live, redrawn-samples) configurations of the importance sampler, and for the standard sampler, the property chains behind FlowSampler.logZ / logZ_error / nested_samples / the weights used to draw the posterior and behind the result-dictionary keys are expanded symbolically (property bodies are decision trees over three predicates) to canonical access paths, which must coincide and must not be None; every return of the standard loop hands back the objects the dictionary reports. Also decides the INS estimator definition (logsumexp(logL+logW) - log n in both the incremental state and the one-pass function, weights minus logZ, shift degree 0), the birth-likelihood lookup, and that every store into a logL / logP field is the model's evaluator applied to the same array (diagnostic-plot colour values are a reviewed exception). Found and repaired: with draw_iid_live=False the dictionary read a None state and the run failed while saving. Property getters are side-effect free apart from 14 lazy-cache writes and the integrator's accumulators have a fixed writer set (R-PURE, who-may-write); the log-prior handed back by compute_weights(return_log_prior=True) is bound once to the model's value and nothing that may share its buffer is modified in place. R-ALIAS (with C02): in-place consumers of property values are paired with getters that return fresh objects; a private cache (an attribute only its getter reads) is an accepted lazy fill. The reported INS evidence error is formed in np.longdouble (C05.6).",
+    "text": "Exhaustive provenance check over the finite configuration space: for each of the four (draw_iid_live, redrawn-samples) configurations of the importance sampler, and for the standard sampler, the property chains behind FlowSampler.logZ / logZ_error / nested_samples / the weights used to draw the posterior and behind the result-dictionary keys are expanded symbolically (property bodies are decision trees over three predicates) to canonical access paths, which must coincide and must not be None; every return of the standard loop hands back the objects the dictionary reports. Also decides the INS estimator definition (logsumexp(logL+logW) - log n in both the incremental state and the one-pass function, weights minus logZ, shift degree 0), the birth-likelihood lookup, and that every store into a logL / logP field is the model's evaluator applied to the same array (diagnostic-plot colour values are a reviewed exception). Found and repaired: with draw_iid_live=False the dictionary read a None state and the run failed while saving. Property getters are side-effect free apart from 14 lazy-cache writes and the integrator's accumulators have a fixed writer set (R-PURE, who-may-write); the log-prior handed back by compute_weights(return_log_prior=True) is bound once to the model's value and nothing that may share its buffer is modified in place. R-ALIAS (with C02): in-place consumers of property values are paired with getters that return fresh objects; a private cache (an attribute only its getter reads) is an accepted lazy fill. The reported INS evidence error is formed in np.longdouble (C05.6). The batch wrappers of Model hand back the evaluator's values, at most cast to the configured dtype; only NaN entries may be replaced (C05.7, shared with C10.4).",
     "note": "Decides which object each reported quantity is read from, not numeric equality on runs nor sample counts. The configuration predicates are tied by the constructor (checked).",
 }
 
